@@ -522,7 +522,7 @@ pub fn run(rep: &Report) {
             }
         }
     }
-    let n = rep.tier.scale(6_000, 30);
+    let n = rep.tier.scale(18_000, 10);
     all_types!(fam_list, rep, n)
     ;
     // unrepresentable keys must be refused
